@@ -10,7 +10,7 @@
    attribute list (a fold that appends) and the wrapping in withDirectives; both covered by
    the oracle. *)
 From VJ Require Import Model.Str Model.Json Model.Ast Model.State Model.Util Model.Directive
-  Model.Lower Spec.JsxText Spec.OutViews Spec.Site Spec.SiteCheck Lemmas.SiteProofs Lemmas.DirsProofs.
+  Model.Lower Spec.JsxText Spec.OutViews Spec.Site Spec.SiteCheck Lemmas.SiteProofs Lemmas.DirsProofs Lemmas.ElementProofs.
 
 Definition C04_full_statement : Prop :=
   forall E el s, filter (starts_with (s_ "C04:")) (check_site E 40 el (fst (lower_el E el s))) = [].
@@ -95,3 +95,12 @@ Example C04_nonvacuous :
             /\ sort_dedup (dp_mods (spec_directive_parts d value)) = [s_ "a"; s_ "b"]
             /\ arg_not_void (dp_arg (spec_directive_parts d value)).
 Proof. eexists. vm_compute. repeat split. Qed.
+
+(* the full statement on the fragment of Lemmas/ElementProofs.v (see Props/C01.v): no complaint of
+   any kind, in particular none of this property *)
+Theorem C04_full_statement_on_fragment : forall E,
+  o_merge_props (e_opts E) = false ->
+  forall h el, good E h el -> forall f s, (h <= f)%nat -> assign_left s = None ->
+  filter (starts_with (s_ "C04:")) (check_site E f el (fst (lower_el E el s))) = [].
+Proof. intros E MP h el G f s LE Q. destruct (element_refines E MP h el G f s LE Q) as [H _]. rewrite H. reflexivity. Qed.
+Print Assumptions C04_full_statement_on_fragment.
